@@ -4,11 +4,12 @@ Re-uses the class-level harnesses (each executes the real fit and transform on a
 independent symbolic transform batch: unseen tokens / labels / characters / phrases, empty items, items shorter than
 n are ordinary feasible paths) with the shape / column-meaning / no-exception assertions selected.
 """
-from harness import cls_ngram, cls_edgelist, cls_skipgram, C16_lz, C09_bpe
+from harness import cls_ngram, cls_edgelist, cls_skipgram, C16_lz, C09_bpe, cls_cooc
 
 
 def cases(tier):
     cs = cls_ngram.ngram_cases(tier, ["C01"]) + cls_skipgram.cases(tier, ("C01",)) + cls_edgelist.cases(tier)
     cs += [c for c in C16_lz.cases(tier)]
     cs += [c for c in C09_bpe.cases(tier) if c.name.startswith("bpe_matrix")]
+    cs += [c for c in cls_cooc.cases(tier, props=("C01",)) if "tr=-" not in c.name]
     return cs
